@@ -19,7 +19,7 @@ ASSUMPTIONS = [
     'quadratics with pairwise distinct value, slope and curvature identify the selected range from the observed numbers',
 ]
 BOUNDS = {'quick': 'sets of <= 4 ranges: 162 sets, 2080 ordered lists, x 3 constructions x 3 evaluation orders',
-          'thorough': 'sets of <= 5 ranges over starts {-inf,0,1,2,3}: 637 sets, all listing orders'}
+          'thorough': 'sets of <= 6 ranges (all listing orders, 720 per 6-set); <= 4 ranges incl. start -inf through the API; 9-14 ranges in 5 structured orders'}
 
 STARTS = [0.0, 1.0, 2.0, 3.0]
 
@@ -31,7 +31,7 @@ def quad(i):
 def cases(tier):
     out = []
     alphabet = [(m, s) for s in STARTS for m in ('>', '>=')]
-    kmax = 4 if tier == 'quick' else 5
+    kmax = 4 if tier == 'quick' else 6
     for k in range(1, kmax + 1):
         for sub in itertools.combinations(range(len(alphabet)), k):
             out.append(dict(ranges=[[alphabet[i][0], alphabet[i][1], i] for i in sub], api_inf=False))
@@ -155,7 +155,7 @@ def run_case(case):
 
     def V(sig, msg):
         viol.append(dict(sig=sig, msg=msg, detail={}))
-    if len(ranges) <= 5:
+    if len(ranges) <= 6:
         perms = list(itertools.permutations(ranges))
     else:
         half = len(ranges) // 2
